@@ -652,7 +652,12 @@ class World:
         dst = dst or rng.choice([n for n in cn if n != src])
         s, d = self.objs[src], self.objs[dst]
         base = base or self.pick_unit(s.contents)
+        free_choice = mode is None
         q, mode = self.size_request(s.contents, base, self.room_L(d), 1, mode, src_obj=s)
+        if free_choice and mode != 'whole_reported' and rng.random() < 0.03:
+            # a quantity that is not a number: refused - accepted, it turns every amount on both sides into NaN
+            q, mode = rng.choice(['nan', 'NaN', '-nan', '+nan']) + ' ' + q.split(' ')[1], 'not_a_number'
+            M.bucket('hostile/quantity_not_a_number')
         step = {'op': 'transfer', 'src': [src, None], 'dst': [dst, None], 'q': q, 'mode': mode}
         kwform = rng.random() < 0.2
         res, exc = self.do('Container.transfer', step,
@@ -682,7 +687,11 @@ class World:
         target, idx, shape, seldesc = (p, idx, shape, None) if use_plate else self.slice_or_sub(p, sel, idx, shape)
         base = base or self.pick_unit(s.contents)
         room = min(self.room_L(p.wells[ij]) for ij in idx)
+        free_choice = mode is None
         q, mode = self.size_request(s.contents, base, room, len(idx), mode)
+        if free_choice and rng.random() < 0.03:
+            q, mode = rng.choice(['nan', 'NaN', '-nan']) + ' ' + q.split(' ')[1], 'not_a_number'
+            M.bucket('hostile/quantity_not_a_number')
         step = {'op': 'transfer', 'src': [src, None], 'dst': [dst, seldesc], 'q': q, 'mode': mode}
         kwform = rng.random() < 0.2
         self.look_first(target)
